@@ -100,6 +100,11 @@ func (e *Env) String() string {
 	}
 
 	for symbol, value := range e.values {
+		if value.IsValid() && value.Type() == reflect.TypeOf(e) {
+			// a module: printing it in full would read its tables without holding its lock
+			buffer.WriteString(fmt.Sprintf("%v = (%v)(%#x)\n", symbol, value.Type(), value.Pointer()))
+			continue
+		}
 		buffer.WriteString(fmt.Sprintf("%v = %#v\n", symbol, value))
 	}
 
